@@ -109,13 +109,18 @@ def constLoop (sh : Shp) (src : Cls) (vals : List α) :
       | .ok false => constLoop sh src vals rest
     else constLoop sh src vals rest
 
+/-- the repeat test of `_simplify` (F22 repaired): equal multiplicities are the degenerate case of a
+    singular trailing dimension — the classification is simply changed; otherwise `is_repeating` -/
+def repeatHit (vals : List α) (dm : Nat) : Except Err Bool :=
+  if dm = vals.length then .ok true else pyIsRepeating vals dm
+
 def repeatLoop (sh : Shp) (vals : List α) :
     List Cls → Except Err (Option (Cls × List α))
   | [] => .ok none
   | dest :: rest =>
     if basePresent sh dest then
       let dm := mult sh dest
-      match pyIsRepeating vals dm with
+      match repeatHit vals dm with
       | .error e => .error e
       | .ok true => .ok (some (dest, vals.take dm))
       | .ok false => repeatLoop sh vals rest
@@ -571,7 +576,7 @@ def ConstMiss (sh : Shp) (src : Cls) (vals : List α) (d : Cls) : Prop :=
     constPeriod sh src d ≠ some 1 ∧ pyIsConstant vals (constPeriod sh src d) = .ok false
 
 def RepeatMiss (sh : Shp) (vals : List α) (d : Cls) : Prop :=
-  basePresent sh d = true → pyIsRepeating vals (mult sh d) = .ok false
+  basePresent sh d = true → repeatHit vals (mult sh d) = .ok false
 
 end loop_misses
 
